@@ -12,6 +12,7 @@ import (
 
 	clover "github.com/ostafen/clover/v2"
 	"github.com/ostafen/clover/v2/document"
+	"github.com/ostafen/clover/v2/query"
 
 	"verif/harness/cs"
 )
@@ -120,9 +121,9 @@ func MakeUpdater(u *cs.Updater, out *cs.Outcome, keepDocs bool) func(doc *docume
 			n := doc.Copy()
 			switch x := n.Get(u.Field).(type) {
 			case int64:
-				n.Set(u.Field, x+u.N)
+				n.Set(u.Field, cs.Incr(x, u.N))
 			case uint64:
-				n.Set(u.Field, int64(x)+u.N)
+				n.Set(u.Field, cs.Incr(int64(x), u.N))
 			case float64:
 				n.Set(u.Field, x+float64(u.N))
 			}
@@ -147,6 +148,17 @@ func ExecDirect(db *clover.DB, op *cs.Op) *cs.Outcome {
 
 func exec(db *clover.DB, op *cs.Op, out *cs.Outcome) {
 	var err error
+	var q *query.Query
+	if op.Q != nil {
+		// the query object is the caller's: no call may alter it (criteria, literals, window, sort)
+		q = BuildQuery(op.Q)
+		d0 := QueryDigest(q)
+		defer func() {
+			if d := QueryDigest(q); d != d0 && out.ArgBad == "" {
+				out.ArgBad = "the query object read " + d0 + " before the call and " + d + " after it"
+			}
+		}()
+	}
 	switch op.Kind {
 	case "close":
 		err = db.Close()
@@ -160,23 +172,67 @@ func exec(db *clover.DB, op *cs.Op, out *cs.Outcome) {
 		out.Names, err = db.ListCollections()
 	case "insert", "insertone", "save":
 		docs := make([]*document.Document, len(op.Docs))
+		before := make([]cs.Doc, len(op.Docs))
+		var template map[string]interface{}
 		for i, d := range op.Docs {
-			docs[i] = ToDocument(d)
+			if _, has := d["_id"]; !has && i > 0 && cs.StrictEqual(map[string]interface{}(d), map[string]interface{}(op.Docs[i-1])) {
+				// equal id-less documents of one batch are built from one Go map, the way a caller
+				// stamps documents out of a template
+				docs[i] = document.NewDocumentOf(template)
+			} else {
+				template = map[string]interface{}(cs.CloneDoc(d))
+				docs[i] = document.NewDocumentOf(template)
+			}
+			if docs[i] == nil {
+				docs[i] = document.NewDocument()
+			}
+			before[i] = FromDocument(docs[i])
 		}
+		defer func() {
+			// the documents handed in are the caller's: apart from a missing _id being assigned they
+			// must read the same after the call (no foreign types, no rewritten members)
+			for i, doc := range docs {
+				after := FromDocument(doc)
+				if id, had := before[i]["_id"]; !had || id == "" {
+					delete(after, "_id")
+					delete(before[i], "_id")
+				}
+				if !cs.StrictEqual(map[string]interface{}(before[i]), map[string]interface{}(after)) {
+					out.ArgBad = fmt.Sprintf("document %d of the call read %s before and %s after it", i, cs.Show(before[i]), cs.Show(after))
+					return
+				}
+			}
+		}()
 		switch op.Kind {
 		case "insert":
 			err = db.Insert(op.Coll, docs...)
 		case "insertone":
 			out.Ret, err = db.InsertOne(op.Coll, docs[0])
 		case "save":
-			err = db.Save(op.Coll, docs[0])
+			if id, has := op.Docs[0]["_id"]; has && id != "" && cs.Hash(op.Docs[0])%2 == 0 && document.NewDocumentOf(map[string]interface{}(cs.CloneDoc(op.Docs[0]))) != nil {
+				// Save accepts any document-like value: here the plain map instead of a *Document
+				// (only when the _id is supplied, so that the stored id is known)
+				plain := map[string]interface{}(cs.CloneDoc(op.Docs[0]))
+				shown := cs.Show(Canon(plain))
+				err = db.Save(op.Coll, plain)
+				if after := cs.Show(Canon(plain)); after != shown {
+					out.ArgBad = "the map given to Save read " + shown + " before the call and " + after + " after it"
+				}
+			} else {
+				err = db.Save(op.Coll, docs[0])
+			}
 		}
 		out.Ids = make([]string, len(docs))
 		for i, d := range docs {
 			out.Ids[i] = d.ObjectId()
 		}
 	case "replace":
-		err = db.ReplaceById(op.Coll, op.Id.Lit, ToDocument(op.Docs[0]))
+		rd := ToDocument(op.Docs[0])
+		before := FromDocument(rd)
+		err = db.ReplaceById(op.Coll, op.Id.Lit, rd)
+		if after := FromDocument(rd); !cs.StrictEqual(map[string]interface{}(before), map[string]interface{}(after)) {
+			out.ArgBad = "the replacement document read " + cs.Show(before) + " before the call and " + cs.Show(after) + " after it"
+		}
 	case "updatebyid":
 		err = db.UpdateById(op.Coll, op.Id.Lit, MakeUpdater(op.Upd, out, true))
 	case "update":
@@ -184,29 +240,40 @@ func exec(db *clover.DB, op *cs.Op, out *cs.Outcome) {
 		for k, v := range op.UpdMap {
 			m[k] = cs.Clone(v.X)
 		}
-		err = db.Update(BuildQuery(op.Q), m)
+		before := cs.Show(Canon(m))
+		err = db.Update(q, m)
+		if after := cs.Show(Canon(m)); after != before {
+			out.ArgBad = "the update map read " + before + " before the call and " + after + " after it"
+		}
 	case "updatefunc":
-		err = db.UpdateFunc(BuildQuery(op.Q), MakeUpdater(op.Upd, out, true))
+		err = db.UpdateFunc(q, MakeUpdater(op.Upd, out, true))
 	case "delete":
-		err = db.Delete(BuildQuery(op.Q))
+		err = db.Delete(q)
 	case "deletebyid":
 		err = db.DeleteById(op.Coll, op.Id.Lit)
 	case "find":
 		var docs []*document.Document
-		docs, err = db.FindAll(BuildQuery(op.Q))
+		docs, err = db.FindAll(q)
 		out.Docs = FromDocuments(docs)
 	case "count":
-		out.N, err = db.Count(BuildQuery(op.Q))
+		out.N, err = db.Count(q)
 	case "exists":
-		out.B, err = db.Exists(BuildQuery(op.Q))
+		out.B, err = db.Exists(q)
 	case "findfirst":
 		var doc *document.Document
-		doc, err = db.FindFirst(BuildQuery(op.Q))
+		doc, err = db.FindFirst(q)
 		if doc != nil {
 			out.Docs = []cs.Doc{FromDocument(doc)}
 		}
+	case "iterate":
+		// IterateDocs is the public engine under FindAll/ForEach/Count: it visits the FindAll sequence
+		err = db.IterateDocs(q, func(doc *document.Document) error {
+			out.Calls++
+			out.Docs = append(out.Docs, FromDocument(doc))
+			return nil
+		})
 	case "foreach":
-		err = db.ForEach(BuildQuery(op.Q), func(doc *document.Document) bool {
+		err = db.ForEach(q, func(doc *document.Document) bool {
 			out.Calls++
 			out.Docs = append(out.Docs, FromDocument(doc))
 			return !(op.StopAt > 0 && out.Calls >= op.StopAt)
@@ -230,7 +297,7 @@ func exec(db *clover.DB, op *cs.Op, out *cs.Outcome) {
 			out.Names = append(out.Names, in.Field)
 		}
 	case "createbyquery":
-		err = db.CreateCollectionByQuery(op.Coll, BuildQuery(op.Q))
+		err = db.CreateCollectionByQuery(op.Coll, q)
 	case "storm":
 		// many cheap calls in a row (used after Close: every one must return promptly)
 		for i := 0; i < 160 && err == nil; i++ {
